@@ -307,14 +307,23 @@ def _ctx_call(s: ast.stmt, ob: str) -> str:
 
 
 def _translate_ctx(fn: ast.FunctionDef) -> t.Dict[str, t.Any]:
+    """sub-language: calls to activate(engine, conn, config) / deactivate() around one `yield`, optionally inside one
+    `try` with `except Exception:` / `except BaseException:` / bare `except:` handlers that end in a bare `raise`,
+    an `else:` block and a `finally:` block"""
     ob = OB + ".activate_context"
     if not any(_u(d) == "contextmanager" for d in fn.decorator_list):
         raise Untranslatable(ob, "not decorated with @contextmanager")
     pre: t.List[str] = []
     post: t.List[str] = []
+    els: t.List[str] = []
+    on_exc: t.List[str] = []
+    on_base: t.List[str] = []
     fin: t.List[str] = []
+    has_exc = False
+    has_base = False
     pre_in_try = False
     seen_yield = False
+    seen_try = False
 
     def is_yield(s: ast.stmt) -> bool:
         return isinstance(s, ast.Expr) and isinstance(s.value, ast.Yield) and s.value.value is None
@@ -327,8 +336,11 @@ def _translate_ctx(fn: ast.FunctionDef) -> t.Dict[str, t.Any]:
                 raise Untranslatable(ob, "two yields")
             seen_yield = True
         elif isinstance(s, ast.Try):
-            if seen_yield or s.handlers or s.orelse or not s.finalbody:
-                raise Untranslatable(ob, "unsupported try statement (only try/finally around the yield)")
+            if seen_yield or seen_try:
+                raise Untranslatable(ob, "unsupported try statement (only one try around the yield)")
+            if not (s.finalbody or s.handlers):
+                raise Untranslatable(ob, "try without handlers or finally")
+            seen_try = True
             inner_seen = False
             for x in s.body:
                 if is_yield(x):
@@ -343,18 +355,32 @@ def _translate_ctx(fn: ast.FunctionDef) -> t.Dict[str, t.Any]:
             if not inner_seen:
                 raise Untranslatable(ob, "try without the yield")
             seen_yield = True
+            for h in s.handlers:
+                if h.name is not None:
+                    raise Untranslatable(ob, "handler binds the exception")
+                if not (h.body and isinstance(h.body[-1], ast.Raise) and h.body[-1].exc is None):
+                    raise Untranslatable(ob, "handler does not end in a bare `raise` (it would swallow the exception)")
+                calls = [_ctx_call(x, ob) for x in h.body[:-1]]
+                kind = "BaseException" if h.type is None else _u(h.type)
+                if kind == "Exception" and not has_exc and not has_base:
+                    on_exc, has_exc = calls, True
+                elif kind == "BaseException" and not has_base:
+                    on_base, has_base = calls, True
+                else:
+                    raise Untranslatable(ob, f"unsupported handler `except {kind}`")
+            els = [_ctx_call(x, ob) for x in s.orelse]
             fin = [_ctx_call(x, ob) for x in s.finalbody]
         elif not seen_yield:
             if pre_in_try:
                 raise Untranslatable(ob, "statement order")
             pre.append(_ctx_call(s, ob))
         else:
-            if fin:
-                raise Untranslatable(ob, "statements after the try/finally")
+            if seen_try:
+                raise Untranslatable(ob, "statements after the try statement")
             post.append(_ctx_call(s, ob))
     if not seen_yield:
         raise Untranslatable(ob, "no yield")
-    return {"pre": pre, "post": post, "fin": fin, "preInTry": pre_in_try}
+    return {"pre": pre, "post": post, "els": els, "onExc": on_exc, "hasExc": has_exc, "onBase": on_base, "fin": fin, "preInTry": pre_in_try}
 
 
 # ------------------------------------------------------------------------------------------------
@@ -452,10 +478,16 @@ def gen_activate(repo: str) -> str:
         "inductive CtxCall | activate | deactivate",
         "  deriving DecidableEq, Repr, Inhabited",
         "",
-        "/-- `activate_context`: calls before the `yield`, after it on the normal path, and in the `finally` block -/",
+        "/-- `activate_context`: calls before the `yield`; after it inside the try / after the statement (normal path);",
+        "    in the `else:` block; in the `except Exception:` handler (`hasExc`) and the `except BaseException:` / bare handler",
+        "    (each ends in `raise`); in the `finally` block -/",
         "structure CtxIR where",
         "  pre : List CtxCall",
         "  post : List CtxCall",
+        "  els : List CtxCall",
+        "  onExc : List CtxCall",
+        "  hasExc : Bool",
+        "  onBase : List CtxCall",
         "  fin : List CtxCall",
         "  preInTry : Bool",
         "  deriving DecidableEq, Repr, Inhabited",
@@ -483,13 +515,10 @@ def gen_activate(repo: str) -> str:
         "",
         "def deactSteps : List DeactStep := [" + ", ".join(d["deactivate"]) + "]",
         "",
-        "def ctxIR : CtxIR := { pre := ["
-        + ", ".join(d["ctx"]["pre"])
-        + "], post := ["
-        + ", ".join(d["ctx"]["post"])
-        + "], fin := ["
-        + ", ".join(d["ctx"]["fin"])
-        + f"], preInTry := {_b(d['ctx']['preInTry'])} }}",
+        "def ctxIR : CtxIR := { pre := [" + ", ".join(d["ctx"]["pre"]) + "], post := [" + ", ".join(d["ctx"]["post"])
+        + "], els := [" + ", ".join(d["ctx"]["els"]) + "], onExc := [" + ", ".join(d["ctx"]["onExc"])
+        + f"], hasExc := {_b(d['ctx']['hasExc'])}, onBase := [" + ", ".join(d["ctx"]["onBase"])
+        + "], fin := [" + ", ".join(d["ctx"]["fin"]) + f"], preInTry := {_b(d['ctx']['preInTry'])} }}",
         "",
         "/-- per engine: names bound by the package's __init__ (in order) -/",
         "def engineExports : List (String × List Export) := [",
